@@ -13,7 +13,7 @@
 #include <unicode/uchar.h>
 #include "cif.h"
 
-static int NW = 1, WK = 0, THOROUGH = 0;
+static int NW = 1, WK = 0, THOROUGH = 0, LIGHT = 0;
 static long nviol = 0;
 #define MAXV 60
 static const UNormalizer2 *NFC, *NFD;
@@ -196,8 +196,8 @@ static void all_codepoints(void) {
             if (norm_with(NFD, name, t, 64) >= 0) check_packet_match("match1", name, t);
             if (cp_allowed_in_name(c + 1)) { UChar o[12]; int m; o[0] = '_'; o[1] = 'x'; m = put_cp(o + 2, c + 1); o[2 + m] = 0; check_packet_match("match1", name, o); }
         }
-        /* block and frame code x+c through the storage layer (quick: BMP and plane boundaries; thorough: everything) */
-        {
+        /* block and frame code x+c through the storage layer (light mode, used under the sanitizers: a subset) */
+        if (!LIGHT || c < 0x3100 || (c & 0xffff) < 0x20 || (c & 0xffff) >= 0xfdc0 || (c >= 0xd700 && c < 0xe100)) {
             cif_block_tp *b = NULL;
             rc = cif_create_block(cif, code, &b);
             if (ok ? rc != CIF_OK : rc != CIF_INVALID_BLOCKCODE) viol("validity", "block code x+U+%04X: cif_create_block returned %d, the character is %s", (unsigned) c, rc, ok ? "allowed" : "not allowed");
@@ -317,6 +317,7 @@ int main(int argc, char **argv) {
     const char *tier = argc > 1 ? argv[1] : "quick";
     NW = argc > 2 ? atoi(argv[2]) : 1; WK = argc > 3 ? atoi(argv[3]) : 0;
     THOROUGH = strcmp(tier, "thorough") == 0;
+    LIGHT = strcmp(tier, "light") == 0;
     NFC = unorm2_getNFCInstance(&e); NFD = unorm2_getNFDInstance(&e);
     if (U_FAILURE(e)) { printf("V setup no normalizer\n"); return 1; }
     all_codepoints();
